@@ -119,6 +119,11 @@ class CharAllowed:
                         isinstance(v.args[0], ast.Name) and v.args[0].id == self.charvar:
                     env[s.targets[0].id] = "ORD"
                     continue
+                try:
+                    env[s.targets[0].id] = self.cond(v, env, defcls)      # a named boolean over the code point
+                    continue
+                except Unsupported:
+                    pass
                 raise Unsupported(norm(s))
             if isinstance(s, ast.If):
                 c = self.cond(s.test, env, defcls)
@@ -225,6 +230,11 @@ class CharAllowed:
     def cond(self, e, env, defcls):
         if isinstance(e, ast.Constant) and isinstance(e.value, bool):
             return ISet.all() if e.value else ISet()
+        if isinstance(e, ast.Name) and isinstance(env.get(e.id), ISet):
+            return env[e.id]
+        if isinstance(e, ast.IfExp):
+            c = self.cond(e.test, env, defcls)
+            return (c & self.cond(e.body, env, defcls)) | (~c & self.cond(e.orelse, env, defcls))
         if isinstance(e, ast.BoolOp):
             parts = [self.cond(v, env, defcls) for v in e.values]
             r = parts[0]
